@@ -104,7 +104,11 @@ def check_bounds(case, spec, r, ck):
 def gen_case(rng):
     kinds = ('contract', 'transport', 'storage', 'storage', 'multi', 'plant', 'plant', 'chp', 'scaled', 'coarse', 'storage_mip', 'orderbook')
     base = gen.gen_mixed_portfolio(rng, kinds=kinds, grid_kw={'steps': (4, 24), 'dst': bool(rng.random() < 0.45)}, n_assets=(2, 5), n_nodes=(1, 3))
-    return gen.strip_private(base)
+    spec = gen.strip_private(base)
+    for a in spec['assets']:
+        for k in ('start_ramp_lower_bounds', 'start_ramp_upper_bounds', 'shutdown_ramp_lower_bounds', 'shutdown_ramp_upper_bounds', 'ramp_freq'):
+            a.pop(k, None)          # ramp profiles are outside C12 (see assumptions)
+    return spec
 
 
 def run_case(rng, tier, case):
